@@ -255,3 +255,7 @@ def falsy(x=0, y=''):
 
 def falsy2(x=None, y=False):
   return vfx.rec('falsy2', locals())
+
+
+class TagD(TagB):
+  """Tag D (grandchild of A)."""
